@@ -54,6 +54,17 @@ Definition new_named (m : list (ustring * patch)) (type_name : ustring) (sh : na
            | NNewtype df inner c => DNewtype name df inner c
            end) ds.
 
+(* convert_ref_type (lib.rs:741-754) and id_for_schema (lib.rs:1014-1028): the schema's `default`
+   annotation is recorded IN PLACE on an Enum / Struct / Newtype entry (`details.default = default`);
+   the entry, hence the extra_derives that type_patch attached at construction, is kept *)
+Definition record_default (e : entry) (df : option json) : entry :=
+  mkEntry (match e_det e with
+           | DEnum n _ tag vs deny bes => DEnum n df tag vs deny bes
+           | DStruct n _ ps deny => DStruct n df ps deny
+           | DNewtype n _ inner c => DNewtype n df inner c
+           | d => d
+           end) (e_derives e).
+
 (* ---------------------------------------------------------------- replacement *)
 Record replacement := mkRepl { rp_type : ustring; rp_impls : list trait }.
 
